@@ -339,4 +339,17 @@ def HasWoken (cfg : Cfg) (s : State) (k : Key) : Prop :=
   ∃ w lkw, s.locks w = some lkw ∧ lkw.phase = .woken ∧ lkw.isStale = false ∧ lkw.nextKey = some k ∧
     ∀ n, nodeOf cfg s k = some n → n.maxCommitTS ≤ lkw.startTS
 
+/-- blocked lock `a` waits for lock `b`: the node of the key `a` is blocked on is held by `b` -/
+def WaitsFor (cfg : Cfg) (s : State) (a b : LockId) : Prop :=
+  ∃ lk k n, s.locks a = some lk ∧ lk.phase = .waiting ∧ lk.nextKey = some k ∧
+    nodeOf cfg s k = some n ∧ n.holder = some b
+
+/-- a non-empty chain of the wait-for relation -/
+inductive WaitChain (cfg : Cfg) (s : State) : LockId → LockId → Prop
+  | single {a b : LockId} : WaitsFor cfg s a b → WaitChain cfg s a b
+  | cons {a b c : LockId} : WaitsFor cfg s a b → WaitChain cfg s b c → WaitChain cfg s a c
+
+/-- every request is finished -/
+def AllDone (s : State) : Prop := ∀ l lk, s.locks l = some lk → lk.phase = .done
+
 end CGV.Latch
